@@ -169,9 +169,14 @@ with xcases_registers (ks : xcases) : bool :=
 (* ================================================================================================ *)
 (* 3. configuration and state                                                                       *)
 
+(* an output: fluentdForward with its serialization section, or datadog (hidden fields; "ddtags" defaults to the tag) *)
+Inductive out_kind :=
+| OFluentd (sc : Serializer.ser_config)
+| ODatadog (hidden : list bytes).
+
 Record out_cfg := {
-  oc_ser : Serializer.ser_config;          (* serialization section of a fluentdForward output *)
-  oc_pack : Packer.config              (* message mode, chunk limits (the tag is the pipeline's) *)
+  oc_kind : out_kind;
+  oc_pack : Packer.config         (* message mode, chunk limits (the tag is the pipeline's) *)
 }.
 
 Record config := {
@@ -188,9 +193,15 @@ Record config := {
   c_buflen : nat;                 (* 2*defs.InputLogMaxRecordBytes when a serializer is created *)
   c_linebuf : nat;                (* defs.ListenerLineBufferSize *)
   c_local_off : Z;
+  c_json : list (bytes * bytes) -> bytes;   (* encoding/json.Marshal of a map[string]string (datadog output): an oracle *)
   c_fix_labels : bool;            (* true: after "fix: field values used as metric label values are made valid UTF-8" *)
   c_fix_ser : bool                (* true: after "fix: fluentd event serializer uses a one-off buffer ..." *)
 }.
+
+(* a constructed serializer: fluentdforward.eventSerializer (C10) or datadog.eventSerializer (field masks, ddtags) *)
+Inductive ser_inst :=
+| SFluentd (s : Serializer.serializer)
+| SDatadog (masks : list bool) (ddtags : bytes).
 
 (* one pipeline = one orchestration key set: what obase.PrepareSequentialPipeline builds *)
 Record pinst := {
@@ -203,7 +214,7 @@ Record pinst := {
   pi_mlabels : list (list bytes); (* the label values handed to the registry for each new metric key set *)
   pi_passed : N;
   pi_dropped : N;
-  pi_sers : list Serializer.serializer;
+  pi_sers : list ser_inst;
   pi_packs : list (Packer.pstate bytes)
 }.
 
@@ -245,21 +256,27 @@ Fixpoint extract_keys (locs : list nat) (fields : list bytes) : outcome (list by
   | l :: locs' => v <~ get_checked fields l ;; r <~ extract_keys locs' fields ;; Ok (v :: r)
   end.
 
-(* MustNewEventSerializer for every output *)
-Fixpoint new_serializers (cfg : config) (outs : list out_cfg) : outcome (list Serializer.serializer) :=
+(* NewSerializer of every output: MustNewEventSerializer (fluentd) / datadog.NewEventSerializer *)
+Fixpoint new_serializers (cfg : config) (tag : bytes) (outs : list out_cfg) : outcome (list ser_inst) :=
   match outs with
   | [] => Ok []
   | o :: outs' =>
-    match Serializer.new_serializer (c_schema cfg) (oc_ser o) (c_buflen cfg) with
-    | Ok s => r <~ new_serializers cfg outs' ;; Ok (s :: r)
-    | _ => Panic site_new_serializer
+    match oc_kind o with
+    | OFluentd sc =>
+      match Serializer.new_serializer (c_schema cfg) sc (c_buflen cfg) with
+      | Ok s => r <~ new_serializers cfg tag outs' ;; Ok (SFluentd s :: r)
+      | _ => Panic site_new_serializer
+      end
+    | ODatadog hidden =>
+      r <~ new_serializers cfg tag outs' ;;
+      Ok (SDatadog (map (fun n => Serializer.is_nil n || Serializer.has_name hidden n) (c_schema cfg)) tag :: r)
     end
   end.
 
 (* byKeySetOrchestrator.newPipeline after the tag is built: metric creator with the key values as labels,
    startPipeline = transforms, process counter, serializers, chunk makers *)
 Definition new_pinst (cfg : config) (p : Routing.pipeline) : outcome pinst :=
-  sers <~ new_serializers cfg (c_outputs cfg) ;;
+  sers <~ new_serializers cfg (Routing.p_tag p) (c_outputs cfg) ;;
   Ok {| pi_keys := Routing.p_keys p; pi_tag := Routing.p_tag p;
         pi_labels := metric_label_values (c_fix_labels cfg) (Routing.p_keys p);
         pi_tfs := c_transforms cfg; pi_custom := [];
@@ -308,8 +325,43 @@ Definition with_tag (k : Packer.config) (tag : bytes) : Packer.config :=
 
 Definition stream_len (s : bytes) : Z := Z.of_nat (length s).
 
+(* datadog.eventSerializer.SerializeRecord: the non-hidden, non-empty fields (record.Fields[i] with Go's index check),
+   "timestamp" in milliseconds, "ddtags" defaulting to the tag; json.Marshal of that map is the oracle [c_json] *)
+Fixpoint dd_fields (i : nat) (names : list bytes) (masks : list bool) (fields : list bytes)
+  : outcome (list (bytes * bytes)) :=
+  match names with
+  | [] => Ok []
+  | n :: names' =>
+    match masks with
+    | [] => Panic site_pipe
+    | m :: masks' =>
+      if m then dd_fields (S i) names' masks' fields
+      else
+        v <~ get_checked fields i ;;
+        r <~ dd_fields (S i) names' masks' fields ;;
+        Ok (if Serializer.is_nil v then r else (n, v) :: r)
+    end
+  end.
+
+Definition b_timestamp : bytes := [116;105;109;101;115;116;97;109;112]%N.
+Definition b_ddtags : bytes := [100;100;116;97;103;115]%N.
+
+Definition dd_serialize (cfg : config) (masks : list bool) (ddtags : bytes) (rec : Serializer.record) : outcome bytes :=
+  m <~ dd_fields 0 (c_schema cfg) masks (Serializer.r_fields rec) ;;
+  let millis := (Serializer.r_unix rec * 1000 + Serializer.r_nsec rec / 1000000)%Z in
+  let m1 := m ++ [(b_timestamp, dec_of_Z millis)] in
+  let has_tags := existsb (fun kv => bytes_eqb (fst kv) b_ddtags) m in
+  let m2 := if negb has_tags && negb (Serializer.is_nil ddtags) then m1 ++ [(b_ddtags, ddtags)] else m1 in
+  Ok (c_json cfg m2).
+
+Definition serialize_with (cfg : config) (s : ser_inst) (rec : Serializer.record) : outcome bytes :=
+  match s with
+  | SFluentd ser => PipelineSerializer.serialize_record_fixed (c_fix_ser cfg) ser rec
+  | SDatadog masks ddtags => dd_serialize cfg masks ddtags rec
+  end.
+
 (* for i, output := range worker.outputList: SerializeRecord, WriteStream *)
-Fixpoint run_outputs (cfg : config) (tag : bytes) (clk : Z) (outs : list out_cfg) (sers : list Serializer.serializer)
+Fixpoint run_outputs (cfg : config) (tag : bytes) (clk : Z) (outs : list out_cfg) (sers : list ser_inst)
          (packs : list (Packer.pstate bytes)) (rec : Serializer.record)
   : outcome (list (Packer.pstate bytes) * list bytes * list (option (Packer.echunk bytes))) :=
   match outs with
@@ -317,7 +369,7 @@ Fixpoint run_outputs (cfg : config) (tag : bytes) (clk : Z) (outs : list out_cfg
   | o :: outs' =>
     match sers, packs with
     | s :: sers', p :: packs' =>
-      stream <~ PipelineSerializer.serialize_record_fixed (c_fix_ser cfg) s rec ;;
+      stream <~ serialize_with cfg s rec ;;
       let (p', ch) := Packer.write_stream bytes stream_len (with_tag (oc_pack o) tag) clk p stream in
       '(ps, ss, cs) <~ run_outputs cfg tag clk outs' sers' packs' rec ;;
       Ok (p' :: ps, stream :: ss, ch :: cs)
